@@ -435,6 +435,10 @@ def judge_tsan(c, r, model):
             continue
         if kind.startswith("thread leak") and "rfbStartOnHoldClient" in rr:
             item = ("threads_not_reclaimed", "ThreadSanitizer: " + kind, {"defect": "threads_not_reclaimed"}, rr[:4000])   # ended client threads never joined
+        elif (kind.startswith("unlock of an unlocked mutex") or kind.startswith("destroy of a locked mutex")) and \
+                re.search(r"#[0-3] [^\n]*rfbNewFramebuffer", rr):
+            # C13-N5: rfbNewFramebuffer unlocks over a second iterator pass what it locked over a first one
+            item = ("mutex_misuse", "ThreadSanitizer: " + kind + " in rfbNewFramebuffer", {"defect": "mutex_misuse", "site": "rfbNewFramebuffer"}, rr[:4000])
         elif any(kind.startswith(tk) for tk in TEARDOWN_KINDS) and \
                 ("rfbClientConnectionGone" in rr or any(u in rr for u in ITER_USERS) or
                  ("rfbNewTCPOrUDPClient" in rr and (race_seen or not kind.startswith("unlock")))):
